@@ -30,7 +30,7 @@ theorem kfold_gen (total : Pt → Nat) (F : KState → Pt → KState)
     rw [h1, h2, (hF s a).1, (hF s a).2]; exact ⟨rfl, rfl⟩
 
 /-- the body of the successor fold of `Circ.kahnLoop` -/
-def kStep (c : Circ) (s : KState) (succ : Pt) : KState :=
+def kahnStep (c : Circ) (s : KState) (succ : Pt) : KState :=
   let cs := kBump s.counts succ
   let total := match c.cell succ.1 succ.2 with
     | some so => (c.prev succ.1 so).length
@@ -38,9 +38,9 @@ def kStep (c : Circ) (s : KState) (succ : Pt) : KState :=
   if kCount cs succ == total then { s with counts := cs, frontier := insertPt succ s.frontier }
   else { s with counts := cs }
 
-theorem kStep_toA (c : Circ) (s : KState) (x : Pt) :
-    (kStep c s x).toA = aStep (cTotal c) s.toA x ∧ (kStep c s x).out = s.out := by
-  unfold kStep aStep cTotal KState.toA
+theorem kahnStep_toA (c : Circ) (s : KState) (x : Pt) :
+    (kahnStep c s x).toA = aStep (cTotal c) s.toA x ∧ (kahnStep c s x).out = s.out := by
+  unfold kahnStep aStep cTotal KState.toA
   cases hc : c.cell x.1 x.2 <;> dsimp only <;> split <;> exact ⟨rfl, rfl⟩
 
 /-- the concrete loop is the abstract loop, its output read back through the grid -/
@@ -60,11 +60,11 @@ theorem kahnLoop_eq (c : Circ) (fuel : Nat) (s : KState) :
       | some o =>
         simp only []
         show c.kahnLoop fuel
-          { frontier := (List.foldl (kStep c) ⟨rest, s.counts, s.out⟩ (c.next p.1 o)).frontier,
-            counts := (List.foldl (kStep c) ⟨rest, s.counts, s.out⟩ (c.next p.1 o)).counts,
-            out := (List.foldl (kStep c) ⟨rest, s.counts, s.out⟩ (c.next p.1 o)).out ++
+          { frontier := (List.foldl (kahnStep c) ⟨rest, s.counts, s.out⟩ (c.next p.1 o)).frontier,
+            counts := (List.foldl (kahnStep c) ⟨rest, s.counts, s.out⟩ (c.next p.1 o)).counts,
+            out := (List.foldl (kahnStep c) ⟨rest, s.counts, s.out⟩ (c.next p.1 o)).out ++
               [(p.1, o)] } = _
-        obtain ⟨h1, h2⟩ := kfold_gen (cTotal c) (kStep c) (kStep_toA c) (c.next p.1 o)
+        obtain ⟨h1, h2⟩ := kfold_gen (cTotal c) (kahnStep c) (kahnStep_toA c) (c.next p.1 o)
           ⟨rest, s.counts, s.out⟩
         rw [ih]
         have e1 : aLoop (cValid c) (cSucc c) (cTotal c) (fuel + 1) s.toA =
@@ -121,7 +121,7 @@ theorem same_head (c : Circ) (hinv : c.Inv) (k : Nat) (o o' : Op) (hlt : k < c.c
   rw [hh, h2] at h1
   exact (Option.some.inj h1).symm
 
-theorem insertBy_sorted (x : Op) (l : List Op) (hs : l.Pairwise (fun a b => a.head < b.head))
+theorem insertBy_sortedLt (x : Op) (l : List Op) (hs : l.Pairwise (fun a b => a.head < b.head))
     (hx : ∀ y ∈ l, x.head ≠ y.head) :
     (insertBy Op.head x l).Pairwise (fun a b => a.head < b.head) := by
   induction l with
@@ -148,7 +148,7 @@ theorem insertBy_sorted (x : Op) (l : List Op) (hs : l.Pairwise (fun a b => a.he
       · exact hlt
       · exact hs'.1 z hz
 
-theorem sortBy_sorted (cy : Cycle) (hd : cy.Pairwise (fun a b => a.head ≠ b.head)) :
+theorem sortBy_sortedLt (cy : Cycle) (hd : cy.Pairwise (fun a b => a.head ≠ b.head)) :
     (sortBy Op.head cy).Pairwise (fun a b => a.head < b.head) := by
   induction cy with
   | nil => simp [sortBy]
@@ -156,7 +156,7 @@ theorem sortBy_sorted (cy : Cycle) (hd : cy.Pairwise (fun a b => a.head ≠ b.he
     have hd' := List.pairwise_cons.mp hd
     have e : sortBy Op.head (a :: t) = insertBy Op.head a (sortBy Op.head t) := rfl
     rw [e]
-    exact insertBy_sorted a _ (ih hd'.2) (fun y hy => hd'.1 y ((mem_sortBy _ _ _).1 hy))
+    exact insertBy_sortedLt a _ (ih hd'.2) (fun y hy => hd'.1 y ((mem_sortBy _ _ _).1 hy))
 
 theorem ptsFrom_sorted (l : List Cycle) (s : Nat)
     (h : ∀ cy ∈ l, cy.Pairwise (fun a b => a.head ≠ b.head)) :
@@ -170,7 +170,7 @@ theorem ptsFrom_sorted (l : List Cycle) (s : Nat)
     · rw [List.pairwise_append]
       refine ⟨?_, i1, ?_⟩
       · rw [List.pairwise_map]
-        apply List.Pairwise.imp _ (sortBy_sorted a (h a (by simp)))
+        apply List.Pairwise.imp _ (sortBy_sortedLt a (h a (by simp)))
         intro x y hxy
         right; exact ⟨rfl, hxy⟩
       · intro x hx y hy
